@@ -106,7 +106,7 @@ D_ALPHA = ([('c', c) for c in b'a07x $#/*{}\'\n\t=' + bytes([0x80, 0xff, 1])] +
            [('hex', x) for x in (b'4', b'41', b'fF', b'0', b'00')] +
            [('cont', None)] +
            [('env', x) for x in (b'SET', b'UNSET', b'EMPTY', b'META', b'UNSET:-dflt', b'SET:-d', b'A:B', b'', b':-d',
-                                 b'UNSET:-', b'N1:x', b'a b\n"c')])
+                                 b'UNSET:-', b'N1:x', b'a b\n"c', b'EMPTY:-d', b'SET:-', b'META:-x', b'UNSET:-a:-b', b'SET:+x')])
 
 # ---- single-quoted units ----
 S_ALPHA = ([('c', c) for c in b'a0 "$#{}/*\n\t' + bytes([0x80, 0xff])] +
@@ -237,9 +237,7 @@ def generate(rng, tier):
     yield from flush('word')
     # ${...} as a whole unquoted token
     for body in [x for k, x in D_ALPHA if k == 'env']:
-        if b'\n' in body:
-            continue
-        batch.append((b'${' + body + b'}', env_subst(body), 0, 'envtok'))
+        batch.append((b'${' + body + b'}', env_subst(body), body.count(b'\n'), 'envtok'))
     yield from flush('envtok')
     # rejected forms
     for t in [b'"\\400"', b'"\\777"', b'"\\1234"', b'"\\8"', b'"\\9z"', b'"\\08"', b'"\\128"', b"'abc", b"'", b'"abc', b'"',
